@@ -25,9 +25,10 @@ N = {"quick": (8, 300), "thorough": (16, 1500)}
 FLOORS = {"declared-scripts": 0.188, "no-languagesystem": 0.1, "two-scripts-with-kerning": 0.185, "cursive": 0.15, "known-finding-class-hit": 0.1}  # a third of the measured frequency: a starving generator is a harness error, sampling noise is not
 
 POOL = [("A", 0x41), ("a", 0x61), ("be-cy", 0x431), ("ie-cy", 0x435), ("alef-ar", 0x627), ("beh-ar", 0x628), ("bet-hb", 0x5D1), ("ka-deva", 0x915), ("period", 0x2E),
-        ("apostrophemod", 0x2BC), ("acutecomb", 0x301), ("fatha-ar", 0x64E), ("anusvara-deva", 0x902)]
+        ("apostrophemod", 0x2BC), ("acutecomb", 0x301), ("fatha-ar", 0x64E), ("anusvara-deva", 0x902),
+        ("a-hira", 0x3042), ("ka-kata", 0x30AB), ("Gamma", 0x393), ("de-cy", 0x434)]
 MARKS = {"acutecomb", "fatha-ar", "anusvara-deva"}
-TAGS = ["latn", "arab", "cyrl", "hebr", "dev2", "deva"]
+TAGS = ["latn", "arab", "cyrl", "hebr", "dev2", "deva", "kana", "grek"]
 
 
 @st.composite
@@ -47,15 +48,24 @@ def _font(draw):
         glyphs.append(g)
     gn = [g["name"] for g in glyphs]
     pairs = draw(st.lists(st.tuples(st.sampled_from(gn), st.sampled_from(gn)), max_size=6, unique=True))
+    chain = False
+    if draw(st.integers(0, 5)) == 0:
+        # cross-script kerning that chains three scripts together (Latin-Greek, Greek-Cyrillic), one of them without same-script pairs, in any storage order
+        for n, u in (("A", 0x41), ("a", 0x61), ("period", 0x2E), ("Gamma", 0x393), ("de-cy", 0x434)):
+            if n not in gn:
+                glyphs.append({"name": n, "width": 500, "unicodes": [u], "contours": [[[0, 0, "line"], [100, 0, "line"], [100, 100, "line"]]], "anchors": [{"name": "top", "x": 250, "y": 700}] if n != "period" else []})
+                gn.append(n)
+        pairs = list(draw(st.permutations([("A", "a"), ("period", "period"), ("Gamma", "de-cy"), ("A", "Gamma")]))) + [p for p in pairs[:2] if p not in (("A", "a"), ("period", "period"), ("Gamma", "de-cy"), ("A", "Gamma"))]
+        chain = True
     kern = [[a, b, -10 - i] for i, (a, b) in enumerate(pairs)]
     spec = {"info": {"unitsPerEm": 1000}, "glyphs": glyphs, "kerning": kern, "lib": {"public.openTypeCategories": {n: ("mark" if n in MARKS else "base") for n in gn}}}
-    mode = draw(st.sampled_from(["none", "dflt", "some", "some", "all"]))
+    mode = "all" if chain else draw(st.sampled_from(["none", "dflt", "some", "some", "all"]))
     tags = {"none": [], "dflt": [], "some": draw(st.lists(st.sampled_from(TAGS), unique=True, max_size=3)), "all": list(TAGS)}[mode]
     stmts = []
     for t in tags:
         stmts.append("languagesystem %s dflt;\n" % t)
         if draw(st.sampled_from([True, False, False])):
-            for lang in draw(st.lists(st.sampled_from(["MAR ", "TRK ", "URD ", "AZE "]), min_size=1, max_size=2, unique=True)):
+            for lang in draw(st.lists(st.sampled_from(["MAR ", "TRK ", "URD ", "AZE ", "JAN "]), min_size=1, max_size=2, unique=True)):
                 stmts.append("languagesystem %s %s;\n" % (t, lang))
     if len(stmts) > 1 and draw(st.sampled_from([True, False])):
         # any declaration order: a script's languages before its dflt, scripts interleaved (only DFLT dflt has to come first)
@@ -83,6 +93,22 @@ def sample_view(case):
     sp = case["spec"]
     return {"module": case["module"], "reused_writers": "first" in case, "glyphs": [[g["name"], [a["name"] for a in g["anchors"]]] for g in sp["glyphs"]], "kerning": sp["kerning"],
             "features": sp["features"], "skip": sp["lib"].get("public.skipExportGlyphs")}
+
+
+def second_glyphs(t, li):
+    """glyphs that appear as the second member of a pair in a PairPos lookup"""
+    lk = t["GPOS"].table.LookupList.Lookup[li]
+    out = set()
+    for stt in lk.SubTable:
+        if stt.LookupType == 9:
+            stt = stt.ExtSubTable
+        if stt.LookupType != 2:
+            continue
+        if stt.Format == 1:
+            out |= {r.SecondGlyph for ps in stt.PairSet for r in ps.PairValueRecord}
+        else:
+            out |= {g for g, c in stt.ClassDef2.classDefs.items() if c}
+    return out
 
 
 def lookup_glyphs(t, li):
@@ -186,6 +212,30 @@ def run_case(case, ctx):
                     raise Violation("a language system of a script lacks a generated positioning feature that another language system of the same script exposes", script=tag, language=lang,
                                     missing=sorted(union - have), per_language={k: sorted(v) for k, v in per.items()}, features=spec["features"])
             ctx.label("script-with-several-language-systems")
+    # ... and the other direction for glyphs that belong to one script only: a generated kern/dist lookup that covers such a glyph is reachable from
+    # that script's language systems when the script is in the GPOS at all and was declared by the user (undeclared scripts: KF-C20-1)
+    kern_glyphs = feats.get("kern", set()) | feats.get("dist", set())
+    for fr in gp.FeatureList.FeatureRecord:
+        if fr.FeatureTag in ("kern", "dist"):
+            for li in fr.Feature.LookupListIndex:
+                kern_glyphs = kern_glyphs | second_glyphs(t, li)
+    for rec in gp.ScriptList.ScriptRecord:
+        tag = rec.ScriptTag
+        if tag == "DFLT" or tag not in declared:
+            continue
+        S_ = ud.ot_tag_to_script(tag)
+        own = sorted(g for g in kern_glyphs if scx.get(g) == {S_})
+        if not own:
+            continue
+        for lang, ls in [("dflt", rec.Script.DefaultLangSys)] + [(l.LangSysTag.strip(), l.LangSys) for l in rec.Script.LangSysRecord]:
+            if ls is None:
+                continue
+            idx = list(ls.FeatureIndex) + ([ls.ReqFeatureIndex] if ls.ReqFeatureIndex != 0xFFFF else [])
+            have = {gp.FeatureList.FeatureRecord[i].FeatureTag for i in idx}
+            if not have & {"kern", "dist"}:
+                raise Violation("a declared script has generated kerning acting on its glyphs but exposes neither kern nor dist", script=tag, language=lang, reachable=sorted(have),
+                                glyphs_of_that_script_in_kern_lookups=own, features=spec["features"], kerning=spec["kerning"])
+        ctx.count("declared-scripts-with-own-kerned-glyphs-checked")
     ctx.count("language-systems-checked", checked)
     ctx.count("language-systems-in-known-finding-class(KF-C20-1)", known)
     if known:
